@@ -552,6 +552,10 @@ func (r *runner) attributeAnswer(out *Outcome, c *Client, mm *mismatch) {
 			}
 		case "C07":
 			r.v("C07", "join-answer", "%s", d)
+			if mm.Kind == "wrong" && strings.Contains(mm.Detail, "SessionState") && strings.Contains(mm.Detail, "pose:{") {
+				// what a newcomer is handed includes the latest pose of every entity
+				r.v("C11", "pose-probe-stale", "%s", d)
+			}
 		case "C01":
 			r.v("C01", "probe-mismatch", "%s", d)
 		case "C20":
